@@ -62,8 +62,12 @@ static size_t gen_right(char* buf, size_t pos) {
   if (has_ev) {
     if (sp3) pos = put(buf, pos, ' '); pos = put(buf, pos, ':'); if (sp4) pos = put(buf, pos, ' ');
     ev_b = pos; pos = gen_ident(buf, pos, le); ev_e = pos;
-    if (has_act) { if (sp3) pos = put(buf, pos, ' '); pos = put(buf, pos, '/'); if (sp4) pos = put(buf, pos, ' '); act_b = pos; pos = gen_ident(buf, pos, la); act_e = pos; }
-    if (has_g) { if (sp5) pos = put(buf, pos, ' '); pos = put(buf, pos, '['); g_b = pos; pos = gen_ident(buf, pos, lg); g_e = pos; pos = put(buf, pos, ']'); }
+    _Bool guard_first;      /* both documented orders: "ev / act [g]" and "ev [g] / act" */
+    for (int part = 0; part < 2; ++part) {
+      _Bool do_guard = guard_first ? (part == 0) : (part == 1);
+      if (!do_guard && has_act) { if (sp3) pos = put(buf, pos, ' '); pos = put(buf, pos, '/'); if (sp4) pos = put(buf, pos, ' '); act_b = pos; pos = gen_ident(buf, pos, la); act_e = pos; }
+      if (do_guard && has_g) { if (sp5) pos = put(buf, pos, ' '); pos = put(buf, pos, '['); g_b = pos; pos = gen_ident(buf, pos, lg); g_e = pos; pos = put(buf, pos, ']'); }
+    }
   }
   R_e = pos; return pos; }
 #define CHECK_RIGHT(t, buf) \
